@@ -280,14 +280,14 @@ theorem atxOpen_heading (rest : Bytes) (s : St) (parent : Nat) (hl : AtLine (35 
   obtain ⟨hnode, hs4⟩ := newNode_ok h4
   have hR := growSamePc_prims
   have hfr : GrowSamePc s4 s' := by
-    refine Fr.apply h ?_
+    refine IFr.apply h ?_
     frame
   have hret : x = (some node, stNoChildren) := by
     refine Ret.apply (Q := fun x => x = (some node, stNoChildren)) h ?_
     ret
   have hR2 := sameReader_prims
   have hsr : SameReader s4 s' := by
-    refine Fr.apply h ?_
+    refine IFr.apply h ?_
     frame
   have hcur : Cur s s' := by
     refine cu1.trans (Cur.of_sameReader ?_)
@@ -319,8 +319,8 @@ theorem push_tail {α} (hd : Nat) (v : α) (s3 : St) (x : α) (s' : St)
     x = v ∧ s'.pc.opened = s3.pc.opened ++ [⟨hd, .atx⟩] ∧ s3.nodes.length ≤ s'.nodes.length ∧
       s'.pc.skipList = s3.pc.skipList ∧ s'.pc.emptyItemBlank = s3.pc.emptyItemBlank ∧ s'.r = s3.r := by
   obtain ⟨u, s4, h4, h⟩ := bind_ok h
-  have hg : GrowSamePc s3 s4 := Fr.apply h4 (appendChild_fr growSamePc_prims 0 hd)
-  have hsr : SameReader s3 s4 := Fr.apply h4 (appendChild_fr sameReader_prims 0 hd)
+  have hg : GrowSamePc s3 s4 := IFr.apply h4 (appendChild_frI growSamePc_prims 0 hd)
+  have hsr : SameReader s3 s4 := IFr.apply h4 (appendChild_frI sameReader_prims 0 hd)
   obtain ⟨u2, s5, h5, h⟩ := bind_ok h
   have hs5 := modPc_ok h5
   obtain ⟨rfl, rfl⟩ := pure_ok h
@@ -370,9 +370,9 @@ theorem tryParsers_heading (rest : Bytes) (blank cont : Bool) (lb : Option Block
       rw [e5, epc] at k2
       obtain ⟨u, s6, h6, k3⟩ := bind_ok k2
       obtain ⟨_, ho6⟩ := closeBlocks_opened _ _ _ _ h6
-      have hg6 : NodesGrow s3 s6 := Fr.apply h6 (closeBlocks_nodesGrow _ _)
-      have hk6 : SameListKeys s3 s6 := Fr.apply h6 (closeBlocks_sameListKeys _ _)
-      have hr6 : SameReader s3 s6 := Fr.apply h6 (closeBlocks_sameReader _ _)
+      have hg6 : NodesGrow s3 s6 := IFr.apply h6 (closeBlocks_nodesGrow _ _)
+      have hk6 : SameListKeys s3 s6 := IFr.apply h6 (closeBlocks_sameListKeys _ _)
+      have hr6 : SameReader s3 s6 := IFr.apply h6 (closeBlocks_sameReader _ _)
       obtain ⟨rfl, ho, hn, hk1, hk2, hr⟩ := push_tail _ _ s6 x s' k3
       have hne : s1.pc.opened ≠ [] := by intro e; rw [e] at hlast; cases hlast
       have hlen : 0 < s1.pc.opened.length := List.length_pos_iff.mpr hne
@@ -481,7 +481,7 @@ theorem openBlocks_heading (rest : Bytes) (blank : Bool) (s : St)
     obtain ⟨_, e3⟩ := pure_ok h3
     rw [e3] at k3
     exact fin cont k3
-theorem blockAt_ok {l : List Block} {i : Int} {b : Block} (h : blockAt l i = .ok b) :
+theorem blockAt_okI {l : List Block} {i : Int} {b : Block} (h : blockAt l i = .ok b) :
     0 ≤ i ∧ l[i.toNat]? = some b := by
   unfold blockAt at h
   split at h
@@ -504,13 +504,13 @@ theorem unwind_tail (rest : Bytes) (s sA sB sC : St) (be : Block) (obs : List Bl
     res = .newBlocksOpened ∧ sC.pc.opened = [⟨s.nodes.length, .atx⟩] ∧ s.nodes.length < sC.nodes.length ∧
       sC.pc.skipList = s.pc.skipList ∧ sC.pc.emptyItemBlank = s.pc.emptyItemBlank ∧ Cur sA sC := by
   obtain ⟨hres, hpush, hgrow, hk1, hk2, cuB⟩ := openBlocks_heading rest blank sA hl res sB hopen
-  obtain ⟨_, hlast⟩ := blockAt_ok hln
+  obtain ⟨_, hlast⟩ := blockAt_okI hln
   simp only [Int.toNat_natCast] at hlast hclose
   have hmem : lastNode ∈ be :: obs := List.mem_of_getElem? hlast
   have hlt : lastNode.node < s.nodes.length := hids _ hmem
-  have hgC : NodesGrow sB sC := Fr.apply hclose (closeBlocks_nodesGrow _ _)
-  have hkC : SameListKeys sB sC := Fr.apply hclose (closeBlocks_sameListKeys _ _)
-  have hrC : SameReader sB sC := Fr.apply hclose (closeBlocks_sameReader _ _)
+  have hgC : NodesGrow sB sC := IFr.apply hclose (closeBlocks_nodesGrow _ _)
+  have hkC : SameListKeys sB sC := IFr.apply hclose (closeBlocks_sameListKeys _ _)
+  have hrC : SameReader sB sC := IFr.apply hclose (closeBlocks_sameReader _ _)
   obtain ⟨_, hoC⟩ := closeBlocks_opened _ _ _ _ hclose
   rw [hpA] at hk1 hk2
   rw [hnA] at hgrow
@@ -769,9 +769,9 @@ theorem blankLine_closes_heading (s : St) (hd : Nat) (stats : List LineStat)
       simp [slotAfter]
     rw [hidx] at hF
     obtain ⟨_, hoF⟩ := closeBlocks_opened _ _ _ _ hF
-    have hgF : NodesGrow sD sF := Fr.apply hF (closeBlocks_nodesGrow _ _)
-    have hkF : SameListKeys sD sF := Fr.apply hF (closeBlocks_sameListKeys _ _)
-    have hrF : SameReader sD sF := Fr.apply hF (closeBlocks_sameReader _ _)
+    have hgF : NodesGrow sD sF := IFr.apply hF (closeBlocks_nodesGrow _ _)
+    have hkF : SameListKeys sD sF := IFr.apply hF (closeBlocks_sameListKeys _ _)
+    have hrF : SameReader sD sF := IFr.apply hF (closeBlocks_sameReader _ _)
     cases eo
     rw [eF]
     refine ⟨rfl, ?_, ?_, by rw [hkF.1, hk1, hpA], by rw [hkF.2, hk2, hpA],
